@@ -243,4 +243,4 @@ def check_case(case):
 
 def run(tier="quick", seed=0):
     return common.run("bounded.C18", cases(tier, seed), bound="tables <=4 rows x <=3 rank columns; Scottish files <=11 candidates", rule=RULE,
-                      budget_s=150 if tier == "quick" else 900)
+                      budget_s=600 if tier == "quick" else 900)
